@@ -1162,7 +1162,34 @@ fn cmd_content(max_len: usize) {
         let ok = matches!(&r, Ok(Some((true, _))));
         if !ok && bad.len() < 6 { bad.push(format!("{{\"what\":\"graphics operand\",\"setter\":\"{name}\",\"value\":\"{v}\",\"got\":{}}}", js(&format!("{:?}", r.map_err(|_| "PANIC"))))); }
     } }
-    println!("{{\"cmd\":\"content\",\"bound\":\"show-text strings of length <= {max_len} over a 12-character alphabet plus 7 fixed strings; 16 f64 setters x 6 special values\",\"evaluated\":{},\"disagreements\":[{}]}}", evaluated, bad.join(","));
+    // (3) positioned glyph runs: GraphicsContext::show_cid_array -> TJ array -> parser. Whatever the segmentation of the array,
+    // every glyph must come back, in order, with the total displacement in front of it that the run describes: the `adjust` of
+    // every earlier glyph, plus its own `-x_offset` (which is undone right after it).
+    {
+        use oxidize_pdf::graphics::CidShowElement;
+        use oxidize_pdf::parser::content::TextElement;
+        let kinds: [(f32, f32); 4] = [(0.0, 0.0), (-30.0, 0.0), (0.0, 25.0), (-30.0, 25.0)];
+        let mut runs: Vec<Vec<usize>> = vec![];
+        for n in 1..=4usize { for code in 0..4usize.pow(n as u32) { let mut c = code; let mut r = vec![]; for _ in 0..n { r.push(c % 4); c /= 4; } runs.push(r); } }
+        for r in runs {
+            evaluated += 1;
+            let run: Vec<CidShowElement> = r.iter().enumerate().map(|(i, &k)| CidShowElement::new(0x0101 + i as u16, kinds[k].0).with_x_offset(kinds[k].1)).collect();
+            let want: Vec<(u16, f32)> = { let mut acc = 0.0f32; run.iter().map(|el| { let before = acc - el.x_offset; acc += el.adjust; (el.cid, before) }).collect() };
+            let got = panic::catch_unwind(|| -> Option<Vec<(u16, f32)>> {
+                let mut page = oxidize_pdf::Page::a4();
+                page.graphics().set_custom_font("Shaped", 10.0);
+                page.graphics().show_cid_array(&run, 10.0, 20.0);
+                let stream = page.graphics_operations();
+                let ops = ContentParser::parse(stream.as_bytes()).ok()?;
+                let mut out = vec![]; let mut acc = 0.0f32;
+                for op in ops { if let ContentOperation::ShowTextArray(els) = op { for e in els { match e { TextElement::Spacing(v) => acc += v, TextElement::Text(b) => { for ch in b.chunks(2) { if ch.len() == 2 { out.push((u16::from_be_bytes([ch[0], ch[1]]), acc)); } } } } } } }
+                Some(out)
+            });
+            let ok = matches!(&got, Ok(Some(g)) if g.len() == want.len() && g.iter().zip(want.iter()).all(|(a, b)| a.0 == b.0 && (a.1 - b.1).abs() < 0.01));
+            if !ok && bad.len() < 8 { bad.push(format!("{{\"glyph_run_kinds\":{:?},\"expected_glyph_displacements\":{:?},\"got\":{}}}", r, want, js(&format!("{:?}", got.map_err(|_| "PANIC"))))); }
+        }
+    }
+    println!("{{\"cmd\":\"content\",\"bound\":\"show-text strings of length <= {max_len} over a 12-character alphabet plus 7 fixed strings; 16 f64 setters x 6 special values; all positioned glyph runs of <= 4 glyphs over 4 kinds (plain, kerned, displaced, both)\",\"evaluated\":{},\"disagreements\":[{}]}}", evaluated, bad.join(","));
 }
 
 // C24 Eb: grayscale / RGB PNG files (filter types 0-4, bit depths 1,2,4,8) built by a reference encoder -> Image::from_png_data
